@@ -3,7 +3,7 @@
    and a retry is never larger than the attempt before it (exact arithmetic, any rejection history).  The controller formulas are
    the model's definitions (Rosenbrock.v: ros_iter, ros_solve), tied to the code exactly by the
    scripted-policy correspondence check; bounds on H are evaluated by the implementation oracle. *)
-From Model Require Import Base Dense Rosenbrock IntegratorProofs ErrorNorm ErrorNormProofs RosScratchProofs NumInst RosTimeQ.
+From Model Require Import Base Dense Rosenbrock BackwardEulerM IntegratorProofs ErrorNorm ErrorNormProofs RosScratchProofs NumInst RosTimeQ.
 From Coq Require Import List Permutation Ring QArith Qabs.
 Local Open Scope nat_scope.
 
@@ -166,3 +166,26 @@ Theorem C07_no_attempt_exceeds_the_remaining_interval_over_Q :
                             add_diag forcing negjac in_place factor_sep solve_sep factor_ip solve_ip nerr p fuel time_step s)).
 Proof. exact ros_attempt_sizes_within_the_interval_Q. Qed.
 Print Assumptions C07_no_attempt_exceeds_the_remaining_interval_over_Q.
+
+(* backward Euler: every step that advances the time - accepted (BeAccept t H) or accepted without convergence
+   (BeUnconverged t H) - starts inside the interval and has 0 <= H <= time_step - t, and every Newton iteration and every
+   rejected step uses 0 <= H <= time_step; any history of convergence failures, reductions and doublings; premises as for
+   C06_backward_euler_final_time_within_the_interval (the initial clamp of h_start is the repair bba10e6) *)
+Theorem C07_backward_euler_steps_within_the_remaining_interval :
+  forall (N : Num) ltb is_zero (V M F : Type) vzero mzero add_diag forcing negjac in_place factor_sep solve_sep
+         factor_ip solve_ip vresid vclamp_add is_converged two (p : be_params N) (phi : T N -> Q),
+    (forall a b, phi (nadd N a b) == phi a + phi b)%Q ->
+    (forall a b, phi (nsub N a b) == phi a - phi b)%Q ->
+    (forall a b, phi (nmul N a b) == phi a * phi b)%Q ->
+    (forall a b, ltb a b = true <-> (phi a < phi b)%Q) ->
+    (phi (n0 N) == 0)%Q ->
+    (0 <= phi (bp_h_start p))%Q ->
+    (forall r, In r (bp_reductions p) -> (0 <= phi r)%Q) ->
+    (0 <= phi two)%Q ->
+    forall fuel time_step (s : bstate V M F),
+      (0 <= phi time_step)%Q ->
+      Forall (be_size_ok N V M phi time_step)
+        (br_trace (be_solve N ltb is_zero V M F vzero mzero add_diag forcing negjac in_place factor_sep solve_sep factor_ip
+                            solve_ip vresid vclamp_add is_converged two p fuel time_step s)).
+Proof. exact be_step_sizes_within_the_interval. Qed.
+Print Assumptions C07_backward_euler_steps_within_the_remaining_interval.
